@@ -2,6 +2,7 @@ package main
 
 import (
 	"fmt"
+	"sort"
 	"strings"
 
 	"golang.org/x/tools/go/ssa"
@@ -13,8 +14,8 @@ func init() {
 		Decides: "the lock discipline that linearizability of these types rests on, not linearizability itself: " +
 			"(R32.1) in every method of Locked, SingleLockedMap and ShardedMap the guarded state (value/isempty, m, sharded) is read with the type's RWMutex held at least shared and written (stored, map-updated, deleted from, cleared, slot-assigned) with it held exclusively; user callbacks run with the lock held; ShardedMap.length is touched only through sync/atomic; " +
 			"(R32.2) the length bookkeeping follows the shard's own answer: +1 only where the shard reported added/created, -1 only where it reported removed, never on an error; " +
-			"(R32.3) value and emptiness / presence change together: Locked stores value and isempty at the same places and only on the callback's success; a locked map writes an entry only on the callback's success and deletes only a found key.",
-		NotDecided: "linearizability of histories; that ShardedMap.Len() equals the number of keys when Empty()/Close() race with a Set (the counter is updated after the shard lock was released); fairness.",
+			"(R32.3) value and emptiness / presence change together: Locked stores value and isempty at the same places and only on the callback's success; a locked map writes an entry only on the callback's success and deletes only a found key; (R32.4) no update of ShardedMap's key counter can be overtaken by the reset in Empty/Close (updates happen with the map lock held) — violated today, known finding.",
+		NotDecided: "linearizability of histories; fairness.",
 		Run:        runC32,
 	})
 }
@@ -80,6 +81,37 @@ func guardedAccesses(c *Ctx, fn *ssa.Function, typeName, field string) []guarded
 }
 
 func runC32(c *Ctx) {
+	// R32.4: the key counter of a ShardedMap is reset by Empty/Close with the map lock held exclusively;
+	// an increment/decrement that follows a shard operation outside that lock can land after the reset
+	// although its key was removed by it: Len() then differs from the number of keys for good.
+	c.Rule("R32.4", "LockHeld")
+	var outside []string
+	nAdd := 0
+	for _, fn := range c.FuncsWithPrefix("util.(*ShardedMap[K,V]).") {
+		if fn.Parent() != nil {
+			continue
+		}
+		adds := c.CallsD(fn, "atomic.AddInt64(&l.length, *)")
+		if len(adds) == 0 {
+			continue
+		}
+		nAdd += len(adds)
+		res := c.heldOK(fn, adds, "&l.l", LR)
+		if !res {
+			outside = append(outside, strings.TrimPrefix(c.FuncKey(fn), "util.(*ShardedMap[K,V])."))
+		}
+	}
+	sort.Strings(outside)
+	c.Floor(nil, "counter updates of ShardedMap", nAdd, 1)
+	if anchor := c.Need("util.(*ShardedMap[K,V]).Empty"); anchor != nil {
+		resets := c.CallsD(anchor, "atomic.StoreInt64(&l.length, 0)")
+		c.Held(anchor, nil, "Empty resets the key counter with the map lock held exclusively", resets, 1, "&l.l", LW)
+		detail := "no counter update can be overtaken by the reset of Empty/Close"
+		if len(outside) > 0 {
+			detail += "; updated outside the map lock in: " + strings.Join(outside, ", ")
+		}
+		c.Report(anchor, detail, anchor.Pos(), len(outside) == 0, "a counter update made after the shard operation without the map lock can follow the reset of a concurrent Empty()/Close()")
+	}
 	// R32.1 --------------------------------------------------------------------------------------
 	c.Rule("R32.1", "LockHeld")
 	total := 0
